@@ -85,8 +85,8 @@ check('C13', 'library-store sim',
       'DESIGN.md 3.2')
 
 check('C12', 'library-store sim',
-      'Seeded search over unit presentations of one abstract world: file-level default-unit blocks (different per file, parent vs include), explicit unit strings with SI prefixes, non-dimensional keys and mixtures, numbers spelled plain / in exponent notation / quoted, many spellings of one unit, per-file temperature units; each presentation is loaded through the in-memory file system and compared field by field with the model and pairwise on a temperature grid; every returned value must be a plain number; a file whose dimensional value is left without any unit, or with a unit string nobody can evaluate (faults), must be rejected, also on a retry, and the good file must load unchanged afterwards. Sampling, not proof.',
-      'Trusts the harness unit factors (cal = 4.184 J, eV, Avogadro, prefixes, R = 8.314472) and its exact decimal rendering; each datum appears once per world so that cross-presentation equality is the only question asked; prefixed temperature units only where the conversion is exact.',
+      'Seeded search over unit presentations of one abstract world: file-level default-unit blocks (different per file, parent vs include), explicit unit strings with SI prefixes, non-dimensional keys and mixtures, numbers spelled plain / in exponent notation / quoted, many spellings of one unit, per-file temperature units; each presentation is loaded through the in-memory file system and compared field by field with the model and pairwise on a temperature grid; every returned value must be a plain number; a file whose dimensional value is left without any unit, or with a unit string nobody can evaluate (faults), must be rejected, also on a retry, and the good file must load unchanged afterwards. A further stratum puts the reference values of a group and its heat-capacity table into two files under different reference temperatures (fixed near-equal pairs such as 298.15 K / 298 K / 0.298 kK, and seeded ones) and demands the evaluation of the one-file presentation. Sampling, not proof.',
+      'Trusts the harness unit factors (cal = 4.184 J, eV, Avogadro, prefixes, R = 8.314472) and its exact decimal rendering; each datum appears once per world so that cross-presentation equality is the only question asked; prefixed temperature units only where the conversion is exact; in the split-reference-temperature stratum the entropy (a numerical quadrature in pgradd) is compared to rel 1e-6, enthalpy and heat capacity to 1e-9, and the heat capacities are a slowly varying curve so that the quadrature is accurate.',
       'deterministic simulation: in-memory file system, per-file unit context as cross-file state, missing-unit fault injection, model refinement',
       'DESIGN.md 3.2')
 
